@@ -1515,3 +1515,24 @@ for _f in sorted(_glob.glob(_os.path.join(_os.path.dirname(_os.path.dirname(_os.
 VARIANTS.append({'id': 'view-guard-around-closure', 'property': 'C05', 'expect': ['P3u'], 'edits': [], 'kind': 'violating',
                  'patch': _os.path.join(_os.path.dirname(_os.path.dirname(_os.path.abspath(__file__))), 'seeded', 'C05-r7', 'patch.diff'),
                  'note': 'an RAII guard that destroys the viewed payload is alive while the view closure runs: an unwinding closure destroys the value without consuming it'})
+
+# repaired forms of the known finding F12 (the rule must be able to pass): the parent position is read again after the
+# publication and the stream is only handed out if it did not move (otherwise the new stream is taken out again and the
+# call starts over)
+VARIANTS.append({'id': 'repair-f12-revalidate', 'property': 'C10', 'expect': [], 'kind': 'repair',
+                 'fixes': ['P10a|ReadCursor::add_stream|ReadCursor::add_stream|snapshot-valid'],
+                 'edits': [E(RC, """                    Ok(_) => {
+                        fence(Ordering::SeqCst);
+                        manager.free(current_ptr, 1);
+                        return new_reader;
+                    }""", """                    Ok(_) => {
+                        fence(Ordering::SeqCst);
+                        manager.free(current_ptr, 1);
+                        if (*reader.pos).pos_data.load_raw(Ordering::Relaxed) == raw {
+                            return new_reader;
+                        }
+                        // (a real repair takes the new stream out again and starts over; the sketch only has to show
+                        // the shape the rule looks for)
+                        panic!("the parent stream moved while the new stream was not visible");
+                    }""")],
+                 'note': 'sketch of a repair (not claimed to be complete): shows that the rule accepts a re-validation after the publication'})
